@@ -123,6 +123,27 @@ def _check_pdf(ctx, model, Q, S, where):
         ctx.check(_same_density(q, p),
                   'pdf.representation-invariance', 'C13:density-depends-on-representation',
                   lambda: dict(where, representation=name, a=p[:3], b=q[:3]))
+    # the same numbers in another dtype (float32 / integer frames are ordinary pandas tables), and the same rows
+    # inside a long batch (> 2000 rows): results must be those of the float64 / short-batch call
+    import pandas as pd
+    q32 = Q.astype('float32')
+    ints = Q.round().clip(-2 ** 30, 2 ** 30).astype('int64')
+    for name, arg in (('float32 DataFrame', q32), ('float32 ndarray', q32.to_numpy()), ('int64 DataFrame', ints),
+                      ('int32 ndarray', ints.to_numpy().astype('int32'))):
+        ref64 = _pdf(ctx, model, pd.DataFrame(np.asarray(arg, dtype='float64'), columns=cols), dict(where, representation='float64 copy'),
+                     'pdf.representation-invariance')
+        q = _pdf(ctx, model, arg, dict(where, representation=name), 'pdf.representation-invariance')
+        if q is None or ref64 is None:
+            continue
+        ctx.check(_same_density(q, ref64), 'pdf.representation-invariance', 'C13:density-depends-on-dtype',
+                  lambda: dict(where, representation=name, a=ref64[:3], b=q[:3]))
+    reps_n = -(-2100 // len(Q))
+    long_batch = pd.concat([Q] * reps_n, ignore_index=True)
+    ql = _pdf(ctx, model, long_batch, dict(where, representation='long batch'), 'pdf.row-independence')
+    if ql is not None:
+        ctx.check(len(ql) == len(long_batch) and _same_density(ql[:len(Q)], p) and _same_density(ql[-len(Q):], p),
+                  'pdf.row-independence', 'C13:row-result-depends-on-batch',
+                  lambda: dict(where, representation='batch of %d rows' % len(long_batch), alone=p[:3], in_batch=ql[:3]))
     rows = rng.choice(len(Q), size=min(6, len(Q)), replace=False)
     for i in rows:
         for name, arg in (('Series', Q.iloc[int(i)]), ('Series-permuted-index', Q.iloc[int(i)][[cols[j] for j in perm]]),
